@@ -2,7 +2,7 @@
    source equal the hand-written model (Model/Timer.v, Model/Job.v).  Re-proved on every run. *)
 From Coq Require Import ZArith List Bool Lia ZifyBool.
 From Sv Require Import PyTime Timer Job Occur PyRepr.
-From Gen Require Import GenOccur GenTimer GenJobState TieOccur TieWeekly.
+From Gen Require Import GenOccur GenTimer TieOccur TieWeekly.
 Import ListNotations.
 Open Scope Z_scope.
 
@@ -78,10 +78,30 @@ Proof.
         unfold calc_clock, py_res, py_of_timer, set_next; rewrite Hb, ?Eo; cbn; reflexivity.
 Qed.
 
-(* BaseJob.has_attempts_remaining = Model.has_attempts *)
-Theorem tie_has_attempts j :
-  GenJobState.has_attempts_remaining (mkPyJobState (j_mark j) (c_max_attempts (j_cfg j)) (j_attempts j)) = Ok (has_attempts j).
+Lemma bind_ok_id {A} (x : res A) : bind x (fun s => Ok s) = x.
+Proof. destruct x; reflexivity. Qed.
+(* the unrolled recursive call is the method itself without a reference *)
+Lemma calc_next_exec_None self : GenTimer.calc_next_exec self None = GenTimer.calc_next_exec_none self.
 Proof.
-  unfold GenJobState.has_attempts_remaining, has_attempts. cbn.
-  destruct (j_mark j); [reflexivity|]. destruct (c_max_attempts (j_cfg j) =? 0); reflexivity.
+  unfold GenTimer.calc_next_exec, GenTimer.calc_next_exec_none.
+  repeat (cbn [bind]; match goal with
+    | |- context [if ?c then _ else _] => destruct c
+    | |- context [bind ?x _] => destruct x
+    end); reflexivity.
 Qed.
+
+(* JobTimer(job_type, timing, start, skip_missing) = Model.timer_init *)
+Theorem tie_jobtimer_new ty tg start skip :
+  entry_sane ty tg = true -> valid_entry ty tg ->
+  GenTimer.jobtimer_new (py_type ty) (py_timing tg) start skip = py_res (timer_init ty tg start skip).
+Proof.
+  intros Hs Hv. unfold GenTimer.jobtimer_new, GenTimer.jobtimer_init, timer_init.
+  unfold set_pt_type, set_pt_timing, set_pt_skip, blank_pytimer. unfold set_pt_next at 1. cbn [pt_type pt_timing pt_next pt_skip].
+  pose proof (tie_timer_calc (mkTimer ty tg start skip) None Hs Hv) as H. unfold py_of_timer in H. cbn [jt_type jt_timing jt_next jt_skip] in H.
+  rewrite <- H, calc_next_exec_None.
+  apply bind_ok_id.
+Qed.
+Lemma tie_jobtimer_datetime tm : GenTimer.jobtimer_datetime (py_of_timer tm) = Ok (jt_next tm).
+Proof. reflexivity. Qed.
+Lemma tie_jobtimer_timedelta tm stamp : GenTimer.jobtimer_timedelta (py_of_timer tm) stamp = dt_sub (jt_next tm) stamp.
+Proof. unfold GenTimer.jobtimer_timedelta, py_of_timer. cbn [pt_next]. destruct (dt_sub (jt_next tm) stamp); reflexivity. Qed.
